@@ -344,6 +344,19 @@ class Gen(object):
 
     def s_chained(self, ind, scope, depth, in_loop):
         a, b = self.pick_var(scope), self.pick_var(scope)
+        if self.rng.random() < 0.15:
+            # one statement binds the same name twice: the later target wins
+            form = self.rng.choice(['%s, %s = %s, %s', '[%s, (w_, %s)] = [%s, (v(), %s)]', '%s = %s = %s'])
+            if form.count('%s') == 4:
+                self.emit(ind, form % (a, a, self.expr(scope), self.expr(scope)))
+            else:
+                self.emit(ind, form % (a, a, self.expr(scope)))
+            scope.add(a)
+            if 'w_' in form:
+                scope.add('w_')
+            self.emit(ind, 'v(%s)' % a)
+            self.features.add('same_name_bound_twice_in_one_statement')
+            return
         if self.rng.random() < 0.2:
             # targets are bound from left to right: a later subscript target reads the binding just made
             if self.rng.random() < 0.5:
@@ -411,6 +424,12 @@ class Gen(object):
             # four operands: the last one reads what the third bound
             self.decisions += 2
             e = self.expr(scope, avoid=(n,))
+            if n in scope.visible_definite() and self.rng.random() < 0.5:
+                # two later operands bind the same name: the chain may stop between them
+                self.emit(ind, 'v(v() < v(%s) < (%s := %s) < (%s := v()))' % (self.readable(scope), n, e, n))
+                self.emit(ind, 'v(%s)' % n)
+                self.features.add('comparison_chain_binds_one_name_twice')
+                return
             self.emit(ind, 'v(v() < v(%s) < (%s := %s) < v(%s))' % (self.readable(scope), n, e, n))
             scope.add(n, definite=False)
             self.features.add('walrus_in_comparison_chain_of_four')
@@ -602,7 +621,7 @@ class Gen(object):
         n = self.pick_var(scope)
         op = rng.choice(['and', 'or'])
         e = self.expr(scope, avoid=(n,))
-        kw = 'while' if (rng.random() < 0.25 and not in_loop and self.dec_ok(2)) else 'if'
+        kw = 'while' if (rng.random() < 0.4 and not in_loop and self.dec_ok(2)) else 'if'
         if kw == 'if' and rng.random() < 0.25:
             # a comparison chain behaves like 'and': the body runs only when every operand was evaluated.  (Not as a
             # while test: the harness evaluates that test as a value, and an opaque comparison result whose truth is
@@ -627,6 +646,13 @@ class Gen(object):
         if kw == 'while':
             self.decisions += 2
         outs = [self.branch(scope, sure if op == 'and' else unsure)]
+        if kw == 'while' and op == 'or' and not self.c01 and rng.random() < 0.7:
+            # no else clause: the loop is left only when every operand of the 'or' chain was evaluated and false
+            # (no break in this mode), so the name is bound after it
+            scope.definite.add(n)
+            self.emit(ind, 'v(%s)' % n)
+            self.features.add('while_or_chain_without_else_then_read')
+            return
         if op == 'or' or rng.random() < 0.5:
             self.emit(ind, 'else:')
             outs.append(self.branch(scope, sure if op == 'or' else unsure))
